@@ -165,7 +165,7 @@ Definition iqr_ok (s' : sample) (xs : list Q) (ps : list (Q * Q)) (W : Q) (wex :
 Definition check_case (c : c10case) : Z * Z * Z * list Z :=
   match c with
   | (sorted, hasw, xs, ws, qs, ist, iv, unm) =>
-      if hasw && negb (length ws =? length xs)%nat then (V_MALFORMED, 0%Z, (-1)%Z, []) else
+      if (if hasw then negb (length ws =? length xs)%nat else negb (length ws =? 0)%nat) then (V_MALFORMED, 0%Z, (-1)%Z, []) else
       if sorted && negb (asc_b xs) then (V_MALFORMED, 0%Z, (-1)%Z, []) else
       let s := mkSample xs (if hasw then Some ws else None) sorted in
       let s' := if sorted then s else sample_sort s in
